@@ -20,6 +20,8 @@ import (
 	"time"
 
 	"google.golang.org/grpc/metadata"
+	"sync"
+	"sync/atomic"
 )
 
 func vpStrs(x interface{}) []string {
@@ -160,7 +162,31 @@ func TestVerifProber(t *testing.T) {
 				size := int(v["size"].(float64))
 				payload, h, err := generatePayload(size)
 				sum := sha256.Sum256(payload)
-				v["hashok"] = err == nil && len(payload) == size && bytes.Equal(h, sum[:])
+				ok := err == nil && len(payload) == size && bytes.Equal(h, sum[:])
+				// probes run concurrently (Prober.Start starts one goroutine per tick): the same must hold for payloads
+				// generated at the same time
+				var wg sync.WaitGroup
+				var bad int32
+				for w := 0; w < 8; w++ {
+					wg.Add(1)
+					go func() {
+						defer wg.Done()
+						defer func() {
+							if p := recover(); p != nil {
+								atomic.AddInt32(&bad, 1)
+							}
+						}()
+						for k := 0; k < 400; k++ {
+							pl, hh, e := generatePayload(size)
+							s2 := sha256.Sum256(pl)
+							if e != nil || len(pl) != size || !bytes.Equal(hh, s2[:]) {
+								atomic.AddInt32(&bad, 1)
+							}
+						}
+					}()
+				}
+				wg.Wait()
+				v["hashok"] = ok && atomic.LoadInt32(&bad) == 0
 			}
 		}()
 		if e := enc.Encode(v); e != nil {
